@@ -744,7 +744,25 @@ func gatedRoots(spec *Spec, F []string) []string {
 	return out
 }
 
-func rootHidden(spec *Spec, F []string) bool { return len(gatedRoots(spec, F)) > 0 }
+// rootsFixed: the library under test treats a gated mutation / subscription root type as absent (fix
+// 04). Detected at start-up (probeRootsFix), so that the same harness is right before and after the fix
+// is applied to /repo; then nothing is outside the theorems' domain on account of the roots.
+var rootsFixed bool
+
+func rootHidden(spec *Spec, F []string) bool { return !rootsFixed && len(gatedRoots(spec, F)) > 0 }
+
+func probeRootsFix() bool {
+	spec := &Spec{Query: "Query", Mutation: "Mutation", Types: withBuiltins(
+		TypeSpec{Kind: "object", Name: "Mutation", Req: []string{"a"}, Fields: []FieldSpec{{Name: "touch", Type: "Int"}}},
+		TypeSpec{Kind: "object", Name: "Query", Fields: []FieldSpec{{Name: "ok", Type: "Boolean"}}})}
+	w := &world{orig: expand(spec), F: map[string]bool{}}
+	b, err := buildSchema(spec, w)
+	if err != nil {
+		return false
+	}
+	o := runQuery(b, w, nil, &query{Kind: "probe", Text: "{ __schema { mutationType { name } } }"})
+	return strings.Contains(o.Resp, `"mutationType":null`)
+}
 
 // filterGF drops the GetField lines of types that do not exist in the erased schema (there is no
 // object to call GetField on).
@@ -985,6 +1003,12 @@ func (h *harness) replayAPI(c *Case, verbose bool) string {
 func main() {
 	run := hx.Init("C13")
 	h := &harness{run: run, perClass: map[string]int{}}
+	rootsFixed = probeRootsFix()
+	if rootsFixed {
+		run.Count("library:gated-roots-honoured(fix-04)")
+	} else {
+		run.Count("library:gated-roots-used(F-13f-open)")
+	}
 	if run.ModelPath != "" {
 		m, err := hx.StartModel(run.ModelPath)
 		if err != nil {
@@ -993,6 +1017,9 @@ func main() {
 		}
 		h.model = m
 		defer m.Close()
+		if rootsFixed {
+			h.ask("(roots filtered)")
+		}
 	}
 	run.SetRule("cases are (schema S accepted by the real schema.New, request feature set F ⊆ features(S) [all subsets], query q) with q an introspection probe (full introspection query, __type(name:) for every type name incl. gated and non-existent ones, types listing, navigation probes through possibleTypes/interfaces) or a type-directed document over S (generated for all features, for F, or for another subset; fragments, type conditions incl. unrelated/gated/unknown types, arguments, variables, directives); distinct = distinct (schema, F, query text); non-trivial = erase(S,F) differs from S (F actually hides a type or a field)")
 
